@@ -2,7 +2,7 @@
 # This file also holds the machinery shared by the position-based members of the family (C06 C11 C12 C14 import it):
 # the generator of fragment programs, the layout renderer, the query builder, the projection of the server's answers
 # and the Runner that explodes one batched case (= one server process) into one row per query.
-import binascii, os, re, sys
+import binascii, os, random, re, sys
 import vlib
 from vlib import Leg
 
@@ -39,6 +39,10 @@ class ProgGen:
         self.fn = 0
         self.vararg = [True]
         self.budget = size or rng.choice([6, 10, 14, 20, 28])
+        # secondary stream (seeded from the state of the primary one WITHOUT drawing from it): shapes added to the
+        # generator later take their decisions from it, so that the programs of the primary stream stay what they were
+        st = rng.getstate()[1]
+        self.r2 = random.Random(hash((st[0], st[1], st[2], st[-1])) & 0xFFFFFFFF)
 
     # ---- names
     def fresh(self, kind="v"):
@@ -247,6 +251,8 @@ class ProgGen:
         ne = r.choice([0, 1, 1, nn, nn])
         ne = min(ne, nn)
         es = self.explist(ne) if ne else []
+        if ne and self.r2.random() < 0.10:
+            es += self.surplus_tail()              # more initialisers than names (secondary stream)
         toks = ["local"]
         for j, n in enumerate(names):
             if j:
@@ -259,6 +265,30 @@ class ProgGen:
         for n in names:
             self.declare(n)
         return toks
+
+    def surplus_tail(self):
+        """`, e, e, ...` behind the initialisers of a local statement that has one per name: surplus initialisers, ALL of
+        them analysed since fixes/C20-local-surplus.diff (before it: only the first one) - a visible local read only
+        there, a closure with a parameter of its own, any expression.  Drawn from the secondary stream."""
+        saved = (self.r, self.budget, self.counter)
+        self.r, self.budget, self.counter = self.r2, min(self.budget, 2), self.counter + 5000
+        try:
+            r = self.r
+            vis = self.visible()
+            out = []
+            for _ in range(r.choice([1, 2, 2, 3])):
+                k = r.random()
+                if vis and k < 0.35:
+                    e = [r.choice(vis)]
+                elif k < 0.55:
+                    p = self.fresh()
+                    e = ["function", "(", p, ")", "return", p] + (["+", r.choice(vis)] if vis else []) + ["end"]
+                else:
+                    e = self.exp(1)
+                out += [","] + e
+            return out
+        finally:
+            self.r, self.budget, self.counter = saved
 
     def pattern(self):
         """the idioms around a declaration's own initialiser / header (classes B1-B4 and their correct neighbours)"""
